@@ -247,73 +247,114 @@ fn parse_dot(src: &str) -> Result<Graph, String> {
 // comparison with the dump
 // ---------------------------------------------------------------------------------------------
 
-fn compare_automaton(g: &Graph, d: &DfaDump, prefix: &str, n_classes: usize) -> Result<(), String> {
-    let n = d.states.len();
-    let mut distinct: Vec<&String> = g.nodes.iter().map(|x| &x.0).collect();
-    distinct.sort();
-    distinct.dedup();
-    if distinct.len() != n {
-        return Err(format!("{} nodes drawn, the automaton has {n} states", distinct.len()));
+/// Parses a node label: the state id (first token) and, for accepting states, the token type
+/// (`T<type>`).
+fn parse_node_label(label: &str) -> Option<(usize, Option<u32>)> {
+    let mut it = label.split_whitespace();
+    let id: usize = it.next()?.parse().ok()?;
+    let mut tt = None;
+    for tok in it {
+        if let Some(n) = tok.strip_prefix('T').and_then(|x| x.parse::<u32>().ok()) {
+            tt = Some(n);
+        }
     }
-    for id in 0..n {
-        let name = format!("{prefix}{id}");
-        let node = g.nodes.iter().filter(|x| x.0 == name).collect::<Vec<_>>();
-        if node.len() != 1 {
-            return Err(format!("state {id} is drawn {} times (node id {name:?})", node.len()));
+    Some((id, tt))
+}
+
+/// Compares one drawn automaton with its dump. Node identity is taken from the labels (state id),
+/// not from the node names, so that another naming scheme of the nodes is not an alarm.
+fn compare_automaton(g: &Graph, d: &DfaDump, n_classes: usize) -> Result<(), String> {
+    let n = d.states.len();
+    let mut name_to_id: BTreeMap<String, usize> = BTreeMap::new();
+    let mut seen = vec![false; n];
+    for (name, at) in &g.nodes {
+        let label = at.get("label").cloned().unwrap_or_else(|| name.clone());
+        let (id, tt) = parse_node_label(&label).ok_or_else(|| format!("node {name:?} has label {label:?}: no state id"))?;
+        if id >= n {
+            return Err(format!("node {name:?} is labelled as state {id}, the automaton has {n} states"));
         }
-        let label = node[0].1.get("label").cloned().unwrap_or_default();
+        if let Some(prev) = name_to_id.get(name) {
+            if *prev != id {
+                return Err(format!("node {name:?} is drawn twice with different state ids"));
+            }
+            continue;
+        }
+        if seen[id] {
+            return Err(format!("state {id} is drawn twice"));
+        }
+        seen[id] = true;
+        name_to_id.insert(name.clone(), id);
         let accepting = id != 0 && d.end_states[id].0;
-        let want = if accepting { format!("{id} T{}", d.end_states[id].1) } else { format!("{id}") };
-        if label != want {
-            return Err(format!("state {id} is labelled {label:?}, expected {want:?}"));
+        match (accepting, tt) {
+            (true, Some(t)) if t == d.end_states[id].1 => {}
+            (true, other) => return Err(format!("accepting state {id} (token type {}) is labelled {label:?} (token type shown: {other:?})", d.end_states[id].1)),
+            (false, Some(t)) => return Err(format!("state {id} is not accepting but labelled {label:?} (T{t})")),
+            (false, None) => {}
         }
-        let red = node[0].1.get("color").map(|c| c == "red").unwrap_or(false);
-        if red != accepting {
-            return Err(format!("state {id}: drawn as accepting = {red}, is accepting = {accepting}"));
-        }
+    }
+    if let Some(missing) = seen.iter().position(|s| !s) {
+        return Err(format!("state {missing} is not drawn ({} of {n} states drawn)", seen.iter().filter(|s| **s).count()));
     }
     // edges as a multiset of (from, to, class id)
-    let mut want: Vec<(String, String, u32)> = vec![];
+    let mut want: Vec<(usize, usize, u32)> = vec![];
     for (s, ts) in d.states.iter().enumerate() {
         for (c, t) in ts {
-            want.push((format!("{prefix}{s}"), format!("{prefix}{t}"), *c));
+            want.push((s, *t as usize, *c));
         }
     }
-    let mut got: Vec<(String, String, u32)> = vec![];
+    let mut got: Vec<(usize, usize, u32)> = vec![];
     for (a, b, at) in &g.edges {
         let label = at.get("label").cloned().unwrap_or_default();
         let cid = label.rfind("(C#").and_then(|i| label[i + 3..].strip_suffix(')')).and_then(|s| s.parse::<u32>().ok()).ok_or_else(|| format!("edge {a} -> {b} has label {label:?} without a '(C#<id>)' suffix"))?;
         if cid as usize >= n_classes {
             return Err(format!("edge {a} -> {b} refers to class id {cid}, the registry has {n_classes}"));
         }
-        got.push((a.clone(), b.clone(), cid));
+        let (Some(x), Some(y)) = (name_to_id.get(a), name_to_id.get(b)) else { return Err(format!("edge {a} -> {b} uses a node that is not drawn in this (sub)graph")) };
+        got.push((*x, *y, cid));
     }
     want.sort();
     got.sort();
     if want != got {
         let missing: Vec<_> = want.iter().filter(|w| !got.contains(w)).take(3).collect();
         let extra: Vec<_> = got.iter().filter(|w| !want.contains(w)).take(3).collect();
-        return Err(format!("edges differ from the transitions: {} drawn, {} transitions; missing {missing:?}, extra {extra:?}", got.len(), want.len()));
+        return Err(format!("edges differ from the transitions: {} drawn, {} transitions; missing (from,to,class) {missing:?}, extra {extra:?}", got.len(), want.len()));
     }
     Ok(())
 }
 
 fn compare_mode(src: &str, d: &DfaDump, n_classes: usize) -> Result<(), String> {
     let g = parse_dot(src).map_err(|e| format!("not well-formed DOT: {e}"))?;
-    compare_automaton(&g, d, "", n_classes)?;
+    compare_automaton(&g, d, n_classes)?;
     if g.clusters.len() != d.lookaheads.len() {
         return Err(format!("{} clusters drawn, the mode has {} lookaheads", g.clusters.len(), d.lookaheads.len()));
     }
+    // node names must not collide between the main automaton and the clusters
+    let mut all_names: Vec<&String> = g.nodes.iter().map(|n| &n.0).collect();
+    for c in &g.clusters {
+        all_names.extend(c.1.nodes.iter().map(|n| &n.0));
+    }
+    let total = all_names.len();
+    all_names.sort();
+    all_names.dedup();
+    if all_names.len() != total {
+        return Err("node names collide between the automaton and a lookahead cluster (or within one)".into());
+    }
     for (tt, positive, la) in &d.lookaheads {
-        let want_label = format!("LA for T{tt}({})", if *positive { "Pos" } else { "Neg" });
-        let cl: Vec<&(String, Graph)> = g.clusters.iter().filter(|c| c.1.attrs.get("label") == Some(&want_label)).collect();
+        // the cluster of this lookahead: its label names the token type and the polarity
+        let is_for = |label: &str| label.split(|c: char| !c.is_ascii_alphanumeric()).any(|w| w == format!("T{tt}"));
+        let cl: Vec<&(String, Graph)> = g.clusters.iter().filter(|c| c.1.attrs.get("label").map(|l| is_for(l)).unwrap_or(false)).collect();
         if cl.len() != 1 {
-            return Err(format!("{} clusters labelled {want_label:?} (cluster labels: {:?})", cl.len(), g.clusters.iter().map(|c| c.1.attrs.get("label").cloned().unwrap_or_default()).collect::<Vec<_>>()));
+            return Err(format!("{} clusters for the lookahead of token type {tt} (cluster labels: {:?})", cl.len(), g.clusters.iter().map(|c| c.1.attrs.get("label").cloned().unwrap_or_default()).collect::<Vec<_>>()));
+        }
+        let label = cl[0].1.attrs.get("label").cloned().unwrap_or_default();
+        let (says_pos, says_neg) = (label.contains("Pos"), label.contains("Neg"));
+        if says_pos == says_neg || says_pos != *positive {
+            return Err(format!("cluster {label:?}: the lookahead of token type {tt} is {}", if *positive { "positive" } else { "negative" }));
         }
         if !cl[0].0.starts_with("cluster") {
             return Err(format!("lookahead subgraph is named {:?}, not cluster*", cl[0].0));
         }
-        compare_automaton(&cl[0].1, la, &format!("{tt}_"), n_classes).map_err(|e| format!("lookahead cluster of T{tt}: {e}"))?;
+        compare_automaton(&cl[0].1, la, n_classes).map_err(|e| format!("lookahead cluster of T{tt}: {e}"))?;
     }
     Ok(())
 }
